@@ -83,6 +83,15 @@ def gen_case(rng, tier, diff=False):
          "kind": "nodiff", "header_seq": rng.pick([[5, 7], [9, 3], [4, 4]])}
     c["reqs"] = gen_requests(rng, size, bs, n=6, sector=ss, raw_align=ss, max_bytes=2_000_000,
                              big=(20 * MB if (bs >= 32 * MB and rng.chance(0.4)) else 0))
+    if inter:
+        # directed: the blocks on both sides of every interleaved sector-bitmap entry (payload block k*cr and its
+        # neighbours), where an index that forgets or double-counts the interleaved entries goes wrong first
+        for k in range(1, nblocks // cr + 1):
+            for b in (k * cr - 1, k * cr, k * cr + 1):
+                if 0 <= b and b * bs + ss <= size:
+                    c["reqs"].append(["bytes", b * bs + rng.randrange(0, bs // ss) * ss, min(ss, size - b * bs)])
+            if k * cr * bs + ss <= size:
+                c["reqs"].append(["raw", k * cr * bs - ss, min(2 * ss, size - (k * cr * bs - ss))])
     return c
 
 
